@@ -47,6 +47,8 @@ func (tp *TransportParameters) PopulateFromUQUIC(quicparams tls.TransportParamet
 					quicparams[pIdx] = tls.InitialSourceConnectionID(tp.InitialSourceConnectionID.Bytes())
 				}
 			}
+		case uint64(maxUDPPayloadSizeParameterID):
+			tp.MaxUDPPayloadSize = protocol.ByteCount(param.(tls.MaxUDPPayloadSize))
 		case uint64(maxDatagramFrameSizeParameterID):
 			tp.MaxDatagramFrameSize = protocol.ByteCount(param.(tls.MaxDatagramFrameSize))
 		default:
